@@ -427,3 +427,23 @@ package stringlib
 //@   modifies everything()
 //@   exits any
 //@   assert_before_call Itoa: arg0 != -9223372036854775808
+
+// ---------------------------------------------------------------------------
+// C17: integer directives of string.format print what C's printf prints
+// ---------------------------------------------------------------------------
+// The integer-verb case of Format (extracted verbatim).  %x, %X, %o and %u are
+// unsigned conversions in C: the value handed to the formatter is the 64-bit
+// two's complement reading of the integer; %d and %i are signed; Go has no 'u'
+// or 'i' verb, both are printed with 'd'.
+//@ fragment fmt_int of Format at switch format[i]/case 'b'
+//@   prop C17
+//@   arith int
+//@   norte
+//@   nocover
+//@   requires t != nil && 0 <= i && i < len(format) && len(outFormat) == len(format) && 0 <= j && len(values) == len(args)
+//@   modifies everything()
+//@   exits any
+//@   ensures fragNext && (format[i] == 'x' || format[i] == 'X' || format[i] == 'o' || format[i] == 'u') ==> typeis(fragOut_arg, uint64)
+//@   ensures fragNext && (format[i] == 'd' || format[i] == 'i') ==> typeis(fragOut_arg, int64)
+//@   ensures fragNext && (format[i] == 'u' || format[i] == 'i') ==> outFormat[i] == 'd'
+//@   ensures fragNext && (format[i] == 'x' || format[i] == 'X' || format[i] == 'o' || format[i] == 'd') ==> outFormat[i] == old(outFormat[i])
